@@ -27,7 +27,7 @@ SNAPSTATE_FILES = [os.path.join(OV, "snapstate", "zz_verif_conflicts_test.go"),
                    os.path.join(OV, "snapstate", "zz_verif_conflicts_export_test.go")]
 IFACE_FILES = [os.path.join(OV, "ifacestate", "zz_verif_conflicts_iface_test.go")]
 INVS = ["RejectIfBusy", "NoStartDuringExclusive", "StaleRejected", "RejectCreatesNothing", "NoOverlap", "ExclusiveLast"]
-ACTIONS = ["ReqSingle", "ReqMany", "ReqPair", "ReqAll", "ReqFrom", "ReqSnapd", "ReqExcl", "ReqTrans", "Inject", "Progress"]
+ACTIONS = ["PartialProgress", "ReqSingle", "ReqMany", "ReqPair", "ReqAll", "ReqFrom", "ReqSnapd", "ReqExcl", "ReqTrans", "Inject", "Progress"]
 EXCL = ("remodel", "create-recovery-system", "remove-recovery-system", "snapd-revert-down", "snapd-refresh-down")
 IRRELEVANT = ("pre-download", "become-operational")
 
